@@ -133,7 +133,7 @@ def run(ctx):
             if f and f["path"] == "parse::parse_ecu_id":
                 refs += 1
                 R.instance("CALL", "%s uses parse_ecu_id" % p)
-    R.floor("CALL", 5)
+    R.floor("CALL", 3)
 
 
 def passthrough(ctx, p):
